@@ -140,7 +140,9 @@ impl World {
     fn logs_str(logs: &[TxLog]) -> String {
         let mut out = vec![];
         for l in logs {
-            if l.endpoint.as_str() == "transferValueOnly" {
+            // chain-level logs of built-in functions are not contract events
+            let ep = l.endpoint.as_str();
+            if ep == "transferValueOnly" || ep.starts_with("ESDT") || ep.starts_with("MultiESDT") || ep == "SCDeploy" || ep == "SCUpgrade" {
                 continue;
             }
             if l.topics.is_empty() {
